@@ -1117,7 +1117,46 @@ def m_lineend(rng, msg):
     return msg.replace(CRLF2, b'\r\n\n', 1)
 
 
-MUTATORS = [('request-line', m_request_line), ('version', m_version), ('header', m_header), ('oversized', m_oversized),
+# Request headers that the server itself interprets somewhere on the way to a response or an error page (content negotiation,
+# connection handling, conditional and range logic, authentication, forwarding), each with well-formed and malformed values: a
+# rejected or failing request still has to be answered whatever these say.
+INTERPRETED_HEADERS = {
+    b'Accept': [b'text/html', b'application/json', b'*/*;q=0.8', b'text/html;q=0.9, */*;q=0.8', b'text/html;q=0.9, */*;q=O.8',
+                b'a/b;q=, c/d;q=1', b'text/html;q=1.5.2, x/y', b';;;, ,', b'application/json;q=abc, text/plain;q=0.1', b'*'],
+    b'Accept-Language': [b'en', b'en;q=0.5, de;q=x', b','],
+    b'Accept-Encoding': [b'gzip', b'gzip;q=zero, deflate', b'*;q=0'],
+    b'Accept-Charset': [b'utf-8', b'utf-8;q=?, latin-1'],
+    b'Connection': [b'close', b'keep-alive', b'Keep-Alive, Upgrade', b'upgrade', b',', b'\x00'],
+    b'Upgrade': [b'websocket', b'h2c', b''],
+    b'Expect': [b'100-continue', b'200-ok', b''],
+    b'Range': [b'bytes=0-1', b'bytes=a-b', b'lines=1-2', b'bytes=-'],
+    b'If-Modified-Since': [b'Thu, 01 Jan 1970 00:00:00 GMT', b'yesterday', b'-1'],
+    b'If-None-Match': [b'"x"', b'*', b'W/'],
+    b'Authorization': [b'Basic Zm9vOmJhcg==', b'Basic !!!', b'Digest username=', b'Bearer', b'Basic'],
+    b'Content-Type': [b'text/plain', b'application/x-www-form-urlencoded', b'multipart/form-data', b'multipart/form-data; boundary=',
+                      b'text/plain; charset=nope', b';', b'a/b/c; q=;'],
+    b'X-Forwarded-For': [b'1.2.3.4', b'::1, x', b','],
+    b'X-Forwarded-Host': [b'h', b'a b', b''],
+    b'Referer': [b'http://h/', b'\\'],
+    b'User-Agent': [b'ua', b'(', b'a' * 300],
+}
+
+
+def m_interpreted(rng, msg):
+    p = split_msg(msg)
+    if not p:
+        return msg
+    fl, hs, body = p
+    for _ in range(rng.choice([1, 1, 2, 3])):
+        name = rng.choice(sorted(INTERPRETED_HEADERS))
+        val = rng.choice(INTERPRETED_HEADERS[name])
+        if rng.random() < 0.2:
+            name = rng.choice([name.lower(), name.upper()])
+        hs.insert(rng.randint(0, len(hs)), name + b': ' + val)
+    return join_msg(fl, hs, body)
+
+
+MUTATORS = [('interpreted-header', m_interpreted), ('interpreted-header', m_interpreted), ('request-line', m_request_line), ('version', m_version), ('header', m_header), ('oversized', m_oversized),
             ('content-length', m_clen), ('clen+te', m_clen_te), ('chunk-size', m_chunk), ('escape', m_escape),
             ('nul/high-bytes', m_bytes), ('tls-hello', m_tls), ('host/cookie', m_host), ('line-ends', m_lineend)]
 
@@ -1299,10 +1338,34 @@ def script(rng, segs, sock=1, queued=False):
     return steps
 
 
+def directed_interpreted(rng):
+    """every value of every interpreted header x every way of ending up with an error page (or a plain answer): the error path
+    reads request headers too (content negotiation of the error document, connection handling)"""
+    ways = [
+        ('ok', b'GET / HTTP/1.1\r\nHost: h\r\n', 'answered'),
+        ('ok', b'GET / HTTP/1.1\r\n', 'no-host'),
+        ('ok', b'GET / HTTP/2.0\r\nHost: h\r\n', 'version'),
+        ('ok', b'GET //etc/passwd HTTP/1.1\r\nHost: h\r\n', 'path-guard'),
+        ('raise', b'GET / HTTP/1.1\r\nHost: h\r\n', 'handler-raises'),
+        ('http403', b'GET / HTTP/1.1\r\nHost: h\r\n', 'handler-forbids'),
+        ('ok', b'POST / HTTP/1.1\r\nHost: h\r\nContent-Length: x\r\n', 'bad-length'),
+    ]
+    cases = []
+    for name in sorted(INTERPRETED_HEADERS):
+        for val in INTERPRETED_HEADERS[name]:
+            for beh, head, tag in ways:
+                msg = head + name + b': ' + val + CRLF + CRLF
+                segs = cut(rng, msg, rng.choice([0, 0, 1]))
+                cases.append({'kind': 'conn', 'beh': beh, 'secure': 0, 'steps': close_script(script(rng, segs)),
+                              'ops': ['interpreted-header', 'error-path:' + tag]})
+    return cases
+
+
 def gen_cases(ctx):
     rng = ctx.rng
     sc = ctx.scale
     cases = []
+    cases += directed_interpreted(rng)
     # fixed + every truncation point of the fixed ones (deliver the prefix, then disconnect)
     for msg, beh in FIXED:
         cases.append({'kind': 'conn', 'beh': beh, 'secure': 0, 'steps': close_script(script(rng, [msg])), 'ops': ['fixed']})
